@@ -6,6 +6,7 @@ import (
 	"time"
 
 	"github.com/bio-routing/bio-rd/net/tcp"
+	"github.com/bio-routing/bio-rd/protocols/bgp/server"
 	"github.com/bio-routing/bio-rd/routingtable/filter"
 
 	"verifharness/core"
@@ -194,6 +195,17 @@ func init() {
 				case <-done:
 				case <-time.After(deadline):
 					return hang(r, "DisposePeer while another connection of the peer handles its OPEN")
+				}
+			case "dispose-with-queued-cease":
+				// the peer's own FSM is in its reconnect pause (it takes no events for a while); a Cease is already waiting for it when
+				// DisposePeer hands it ManualStop: the FSM takes the Cease first and ends
+				s = newCollSessionPause("localLower", 300*time.Millisecond)
+				dispose = func() { s.srv.DisposePeer(s.vrf, s.peerKey) }
+				time.Sleep(30 * time.Millisecond)
+				go server.VerifFSMEvent(s.srv, s.vrf, s.peerKey, 0, server.Cease, 5*time.Second)
+				time.Sleep(30 * time.Millisecond)
+				if !within(deadline, dispose) {
+					return hang(r, "DisposePeer while a Cease is already queued for an FSM in its reconnect pause")
 				}
 			case "export-while-updates", "import-while-updates":
 				if err := s.establish(1); err != nil {
